@@ -38,7 +38,7 @@ fn search_id_annot(
     GlobalNameSearchRequest::Toplevel(mod_ref, name)
       if mod_ref.eq(&annotation.module_reference) && name.eq(&annotation.id.name) =>
     {
-      collector.push(annotation.location);
+      collector.push(annotation.id.loc);
     }
     _ => {}
   }
